@@ -109,6 +109,23 @@ UNITS = {
     "Int60": dict(
         file="@harness/gen_int60.c",
         funcs=[dict(name="gen_INT64TOINT60"), dict(name="gen_INT60TOINT64"), dict(name="gen_BUILD_UNLOCKED_SYNCVAR")]),
+    "Dict": dict(
+        file="@harness/gen_dict.c",
+        funcs=[dict(name="gen_REVERSE_BYTE"), dict(name="so_dummykey"), dict(name="so_regularkey"), dict(name="GET_PARENT"),
+               dict(name="qt_hash_put", as_="qt_hash_put_index", start=r"^HASH_KEY", stop=r"^assert\(node\)|^node->hashed_key",
+                    outputs=["lkey", "bucket"])]),
+    "Swsr": dict(
+        file="src/ds/qswsrqueue.c",
+        funcs=[dict(name="qswsrqueue_create", as_="qswsr_create_size", stop=r"^q = qt_internal_aligned_alloc", outputs=["elements"]),
+               dict(name="qswsrqueue_enqueue", as_="qswsr_enq_index", stop=r"^COMPILER_FENCE", outputs=["cur_tail", "next_tail"]),
+               dict(name="qswsrqueue_enqueue_blocking", as_="qswsr_enqb_index", stop=r"^do\b", outputs=["cur_tail", "next_tail"]),
+               dict(name="qswsrqueue_dequeue", as_="qswsr_deq_index", start=r"^q->head =", stop=r"^return item", outputs=["q_head"]),
+               dict(name="qswsrqueue_dequeue_blocking", as_="qswsr_deqb_index", stop=r"^do\b", outputs=["cur_head", "next_head"]),
+               dict(name="qswsrqueue_empty", as_="qswsr_empty")]),
+    "Ident": dict(
+        file="src/qthread.c",
+        funcs=[dict(name="qthread_id", skip_stmts=[r"^qthread_debug"],
+                    oracles={"qthread_internal_self": [], "__sync_fetch_and_add_8": ("incr", [1], "site"), "qthread_internal_incr": ("incr", [2], "site")})]),
     "Hazard": dict(
         file="src/hazardptrs.c",
         funcs=[dict(name="binary_search")]),
@@ -326,6 +343,7 @@ class Kernel:
         self.ignore = set(spec.get("ignore", []))
         self.ret_ty = None
         self.cur_file = None
+        self.oracle_sites = {}
 
     # ----- source text
     def loc_off(self, loc):
@@ -717,11 +735,19 @@ class Kernel:
         if name in orc:
             idxs = orc[name]
             oname = name
+            site = None
             if isinstance(idxs, tuple):
-                oname, idxs = idxs
+                if len(idxs) == 3:
+                    # sequenced oracle: every call site passes its number (order of appearance in the source) first, so
+                    # that two calls with equal arguments may return different values (fetch-and-add, reads of shared memory)
+                    sites = self.oracle_sites.setdefault(name, [])
+                    if n.get("id") not in sites:
+                        sites.append(n.get("id"))
+                    site = sites.index(n.get("id"))
+                oname, idxs = idxs[0], idxs[1]
             if not ty.scalar():
                 raise CTransError("%s: oracle call returns a non-scalar" % self.where(n))
-            coqty = " -> ".join(["Z"] * (len(idxs) + 1))
+            coqty = " -> ".join(["Z"] * (len(idxs) + 1 + (1 if site is not None else 0)))
             v = self.declare(("o", name), oname, ty, coqty=coqty, cat="oracle")
             if v.key not in self.inputs:
                 self.inputs.append(v.key)
@@ -729,9 +755,13 @@ class Kernel:
                 env["assigned"] = env["assigned"] | {v.key}
             es = [self.expr(args[i], env) for i in idxs]
             g = [x for e in es for x in e.guards]
+            if site is not None:
+                return E("%s %s" % (v.name, " ".join([str(site)] + [e.zpar() for e in es])), ty, guards=g)
             if not idxs:
                 return E(v.name, ty, atomic=True)
             return E("%s %s" % (v.name, " ".join(e.zpar() for e in es)), ty, guards=g)
+        if name == "__builtin_expect":
+            return self.conv(self.expr(args[0], env), ty)
         if name in self.unit.done:
             return self.kcall(n, self.unit.done[name], args, env, ty)
         if name in self.spec.get("skip_calls", []):
